@@ -471,6 +471,13 @@ func checkProperty(p *Property, tier string, seed int) int {
 			"trusted_base":        []string{"go/types", "go/ssa", "x/tools callgraph cha+vta", "dgcheck rule tables (spec constants)"},
 		},
 	}
+	if tier == "thorough" {
+		if st := runSeededSelfTest(p); st != nil {
+			ev.Coverage["seeded_selftest"] = st
+			ev.Coverage["seeded_selftest_note"] = "seeded changes from /verif/seeded re-applied to a scratch copy of the CURRENT tree and re-checked (quick tier) in this run; informational, never a failure of the unchanged tree"
+			ev.WallS = time.Since(t0).Seconds()
+		}
+	}
 	b, _ := json.MarshalIndent(ev, "", " ")
 	if err := os.WriteFile(filepath.Join(evDir, p.ID+".json"), b, 0o644); err != nil {
 		broken("write evidence: %v", err)
